@@ -208,14 +208,27 @@ def keepTr (src dst : Option Name) (t : Tr) : Bool :=
   (match src with | some s => t.source != s | none => false) ||
   (match dst with | some d => t.dest != some d | none => false)
 
-/-- `for model in self.models: delattr(model, trigger)` — stops at the first AttributeError; the
-models before it have already lost the attribute -/
-def delLoop (e : Name) : List (Nat × Obj) → List (Nat × Obj) × Bool
-  | [] => ([], true)
-  | (m, o) :: r =>
-    match o.delattr e with
-    | some o' => let p := delLoop e r; ((m, o') :: p.1, p.2)
-    | none => ((m, o) :: r, false)
+/-- is the instance attribute a partial whose function belongs to this machine or to the event `e`?
+(`isinstance(bound_func, partial) and bound_func.func.__self__ in (self, self.events.get(trigger))`:
+`is_state`, `_can_trigger`, `_get_trigger`, `to_state` are methods of the machine, an event method is a
+method of its event) -/
+def machineOwned (e : Name) : Binding → Bool
+  | .trigger e' => e' == e
+  | .isState _ => true
+  | .may _ => true
+  | .triggerFn => true
+  | .mayTriggerFn => true
+  | .toFn => true
+  | _ => false
+
+def Obj.dropInst (o : Obj) (e : Name) : Obj := { o with inst := kdel e o.inst }
+
+/-- `Machine._remove_trigger_from_model`: only what the machine bound itself is deleted, and only from
+the instance dict -/
+def removeTriggerFromModel (e : Name) (o : Obj) : Obj :=
+  match kget e o.inst with
+  | some b => if machineOwned e b then o.dropInst e else o
+  | none => o
 
 /-- `Machine.remove_transition` (string selectors; `none` = `"*"`) -/
 def removeTransition (hm : HM) (e : Name) (src dst : Option Name) : HM × Option Err :=
@@ -225,9 +238,7 @@ def removeTransition (hm : HM) (e : Name) (src dst : Option Name) : HM × Option
     match ts.filter (keepTr src dst) with
     | [] =>
       -- no transition is left: remove the trigger from all models, then from the machine
-      let p := delLoop e hm.objs
-      if p.2 then ({ hm with objs := p.1, events := kdel e hm.events }, none)
-      else ({ hm with objs := p.1 }, some .attributeError)
+      ({ hm.onObjs (removeTriggerFromModel e) with events := kdel e hm.events }, none)
     | keep => ({ hm with events := kset e keep hm.events }, none)
 
 def Obj.stateOf (attr : Name) (o : Obj) : Option Name :=
@@ -367,22 +378,23 @@ def HSM.scopeEvents (h : HSM) (pre : Path) : List (Name × List Path) := (kget p
 def scopeTriggers (evs : List (Name × List Path)) (p : Path) : List Name :=
   evs.filterMap fun ev => if ev.2.contains p then some ev.1 else none
 
-/-- `HierarchicalMachine.get_nested_triggers(src_path)` called in the scope `pre` (`src_path` non-empty) -/
-def nestedTriggers (h : HSM) : Path → Path → List Name
-  | _, [] => []
-  | pre, x :: tl =>
-    scopeTriggers (h.scopeEvents pre) (x :: tl) ++
-      (if tl ≠ [] ∧ (pre ++ [x]) ∈ h.states then nestedTriggers h (pre ++ [x]) tl else [])
-
 /-- the non-empty prefixes of a path, longest first (`while state_path: …; state_path.pop()`) -/
 def prefixesDesc : Path → List Path
   | [] => []
   | x :: tl => (prefixesDesc tl).map (x :: ·) ++ [[x]]
 
+/-- `HierarchicalMachine._get_scoped_triggers(src_path)` called in the scope `pre`: the scope is asked for
+the state and its parents inside the scope, then the scope of the first segment for the rest -/
+def scopedTriggers (h : HSM) : Path → Path → List Name
+  | _, [] => []
+  | pre, x :: tl =>
+    (prefixesDesc (x :: tl)).flatMap (scopeTriggers (h.scopeEvents pre)) ++
+      (if tl ≠ [] ∧ (pre ++ [x]) ∈ h.states then scopedTriggers h (pre ++ [x]) tl else [])
+
 /-- `HierarchicalMachine.get_triggers(state)` -/
 def getTriggersH (h : HSM) (p : Path) : List Name :=
   (match p with
-    | x :: y :: tl => nestedTriggers h [x] (y :: tl)
+    | x :: y :: tl => scopedTriggers h [x] (y :: tl)
     | _ => []) ++
   (prefixesDesc p).flatMap (scopeTriggers (h.scopeEvents []))
 
@@ -400,14 +412,6 @@ def firesIn (h : HSM) : Path → Path → Name → Bool
   | pre, x :: tl, e =>
     (prefixesDesc (x :: tl)).any (declared (h.scopeEvents pre) e) ||
       (tl ≠ [] && firesIn h (pre ++ [x]) tl e)
-
-/-- the structural condition of finding F-C11-nested-get-triggers: some scope below the root declares
-an event on a proper ancestor (inside that scope) of the queried state -/
-def localAncestorDecl (h : HSM) : Path → Path → Bool
-  | _, [] => false
-  | pre, x :: tl =>
-    (pre ≠ [] && (h.scopeEvents pre).any fun ev => ev.2.any fun q => q ≠ (x :: tl) && (prefixesDesc (x :: tl)).contains q) ||
-      (tl ≠ [] && localAncestorDecl h (pre ++ [x]) tl)
 
 /-- `build_state_tree` as the list of active paths below the current node: the keys of the dict are
 the heads, the sub-dict of a key are the tails -/
@@ -496,12 +500,14 @@ def nestedT (h : HT) : Nat → Path → Option Name → Path → Path → List F
     match src, dst with
     | s0 :: sr, d0 :: dr =>
       flatT h pre trig (s0 :: sr) (d0 :: dr) ++
-        (if sr ≠ [] ∧ dr ≠ [] then nestedT h f (pre ++ [s0]) trig sr dr else [])
+        -- transitions defined in the scope of a nested state connect states of that very scope
+        (if sr ≠ [] ∧ dr ≠ [] ∧ s0 = d0 then nestedT h f (pre ++ [s0]) trig sr dr else [])
     | s0 :: sr, [] =>
       flatT h pre trig (s0 :: sr) [] ++ (if sr ≠ [] then nestedT h f (pre ++ [s0]) trig sr [] else [])
     | [], d0 :: dr =>
       flatT h pre trig [] (d0 :: dr) ++
-        (if dr ≠ [] then (h.children pre).flatMap fun x => nestedT h f (pre ++ [x]) trig [] dr else [])
+        -- only the scope of the destination's parent can contain (local) transitions to that destination
+        (if dr ≠ [] ∧ d0 ∈ h.children pre then nestedT h f (pre ++ [d0]) trig [] dr else [])
     | [], [] =>
       flatT h pre trig [] [] ++ (h.children pre).flatMap fun x => nestedT h f (pre ++ [x]) trig [] []
 
@@ -522,40 +528,27 @@ inductive TopAttr
   | missing | user | userNone | wrapper
   deriving DecidableEq, Repr, Inhabited
 
-inductive WErr
-  | attributeError | assertionError
-  deriving DecidableEq, Repr, Inhabited
-
-/-- one binding step: `isStep` = `_add_model_to_state` (custom separator branch), else the `to_` branch of
-`_add_trigger_to_model`; `restEmpty` = the path below the top-level name is empty -/
+/-- one binding step of `_add_wrapped_function(model, name, func, path)`; `restEmpty` = `not path` -/
 structure WStep where
   name : Name
-  isStep : Bool
+  isStep : Bool            -- an `is_` helper (else the `to_` method of an auto transition); same code path
   restEmpty : Bool
   deriving DecidableEq, Repr, Inhabited
 
-def wrapStep (override : Bool) (a : TopAttr) (st : WStep) : Except WErr TopAttr :=
+def wrapStep (override : Bool) (a : TopAttr) (st : WStep) : TopAttr :=
   match a with
-  | .wrapper => .ok .wrapper                              -- hasattr: `.add(func, path)` on the FunctionWrapper
-  | .user => .error .attributeError                       -- hasattr: `.add` on something that is no FunctionWrapper
-  | .userNone => .error .attributeError                   -- hasattr: `None.add`
-  | .missing =>
-    if st.isStep && !st.restEmpty then .error .assertionError       -- assert not path[1:]
-    else if override then .ok .missing else .ok .wrapper            -- _checked_assignment(model, name, FunctionWrapper(f))
+  | .wrapper => .wrapper                                   -- isinstance(bound_func, FunctionWrapper): `.add(func, path)`
+  | a =>
+    if st.restEmpty then
+      -- self._checked_assignment(model, name, FunctionWrapper(func))
+      let unbound := match a with | .missing => true | .userNone => true | _ => false
+      if unbound != override then .wrapper else a
+    else a                                                 -- "Skip binding of … due to model override policy"
 
 /-- the wrapper steps of `add_model` in the code's order; the namespace maps top-level helper names -/
-def runWrap (override : Bool) : List (Name × TopAttr) → List WStep → Except WErr (List (Name × TopAttr))
-  | ns, [] => .ok ns
-  | ns, st :: r =>
-    match wrapStep override ((kget st.name ns).getD .missing) st with
-    | .ok a => runWrap override (kset st.name a ns) r
-    | .error e => .error e
-
-/-- the exception `add_model` raises while binding the wrappers, if any -/
-def wrapOutcome (override : Bool) (ns : List (Name × TopAttr)) (steps : List WStep) : Option WErr :=
-  match runWrap override ns steps with
-  | .ok _ => none
-  | .error e => some e
+def runWrap (override : Bool) : List (Name × TopAttr) → List WStep → List (Name × TopAttr)
+  | ns, [] => ns
+  | ns, st :: r => runWrap override (kset st.name (wrapStep override ((kget st.name ns).getD .missing) st) ns) r
 
 end Helpers
 end TM
